@@ -1,5 +1,6 @@
-(* Extraction of the C04 Mech model (store paths of /repo) and of the Spec conversion. Whole programs are run by
-   the shared bin/lang_model. *)
+(* Extraction of the C04 Mech model (store paths of /repo), of the Spec conversion and of the try layer (C04/Try.v: programs whose
+   main function catches range errors with try / checked). Try-free whole programs are run by the shared bin/lang_model. *)
 From Coq Require Import Extraction ExtrOcamlBasic ExtrOcamlString ZArith.
-From Cb Require Import Lang.Syntax Lang.Sem Lang.Print C04.Gen_RangeTable C04.Model.
-Extraction "C04/c04_model.ml" dec_Z mech_store mech_elem1_update coerce narrow_read looks_like_pointer range gen_range Z.add Z.mul Z.opp Z.of_nat.
+From Cb Require Import Lang.Syntax Lang.Sem Lang.Print C04.Gen_RangeTable C04.Model C04.Try.
+Extraction "C04/c04_model.ml" dec_Z mech_store mech_elem1_update coerce narrow_read looks_like_pointer range gen_range Z.add Z.mul Z.opp Z.of_nat
+  mech_effects spec_effects read_of run_try print_tprogram render.
